@@ -5,16 +5,20 @@ open Node
 /-- what the operand handler guarantees for a list of operands handled left to right -/
 def OpErL (cx : Cx) (lo hi : Nat) (es : List Node) (asg args : List Node)
     (R : (List Node × List Node × List Node) × St) (s : St) : Prop :=
-  ∃ new more, R.1.2.1 = asg ++ new ∧ R.1.2.2 = args ++ more ∧ AllTA new ∧ InertL more ∧ s.counter ≤ R.2.counter ∧
-    (∀ σ, cx.ext σ → ∃ Δ, eraseAsg σ new = Δ ++ σ ∧ WinU lo hi s.counter R.2.counter Δ) ∧
-    (∀ σ Δ2, cx.ext σ → Avoid s.counter R.2.counter Δ2 → AvoidP cx.bad Δ2 →
-      ∃ Xs Δ3, eraseL (Δ2 ++ eraseAsg σ new) R.1.1 = (Xs, Δ3 ++ (Δ2 ++ eraseAsg σ new)) ∧ SimL Xs es ∧ Win lo hi Δ3)
+  ∃ new more, R.1.2.1 = asg ++ new ∧ R.1.2.2 = args ++ more ∧ AllTA new ∧ InertL more ∧ noBlkL more = true ∧
+    s.counter ≤ R.2.counter ∧
+    (∀ new'', BRgL new new'' → ∀ σ, cx.ext σ → ∃ Δ, eraseAsg σ new'' = Δ ++ σ ∧ WinU lo hi s.counter R.2.counter Δ) ∧
+    (∀ new'' xs'', BRgL new new'' → BRgL R.1.1 xs'' → ∀ σ Δ2, cx.ext σ → Avoid s.counter R.2.counter Δ2 → AvoidP cx.bad Δ2 →
+      ∃ Xs Δ3, eraseL (Δ2 ++ eraseAsg σ new'') xs'' = (Xs, Δ3 ++ (Δ2 ++ eraseAsg σ new'')) ∧ SimL Xs es ∧ Win lo hi Δ3)
 
 theorem opErL_nil (cx : Cx) (lo hi : Nat) (asg args : List Node) (s : St) :
     OpErL cx lo hi [] asg args (([], asg, args), s) s := by
-  refine ⟨[], [], by simp, by simp, AllTA.nil, InertL.nil, Nat.le_refl _, ?_, ?_⟩
-  · intro σ _; exact ⟨[], rfl, WinU.nil _ _ _ _⟩
-  · intro σ Δ2 _ _ _
+  refine ⟨[], [], by simp, by simp, AllTA.nil, InertL.nil, rfl, Nat.le_refl _, ?_, ?_⟩
+  · intro new'' hn σ _
+    rw [BRgL.nil_inv hn]
+    exact ⟨[], rfl, WinU.nil _ _ _ _⟩
+  · intro new'' xs'' hn hx σ Δ2 _ _ _
+    rw [BRgL.nil_inv hn, BRgL.nil_inv hx]
     exact ⟨[], [], by simp [eraseL, eraseAsg], rfl, Win.nil _ _⟩
 
 theorem opErL_cons {cx : Cx} {lo hi : Nat} {e x : Node} {es xs asg args asg1 args1 asg2 args2 : List Node} {s s1 s2 : St}
@@ -22,24 +26,28 @@ theorem opErL_cons {cx : Cx} {lo hi : Nat} {e x : Node} {es xs asg args asg1 arg
     (h1 : OpEr cx lo hi e asg args ((x, asg1, args1), s1) s)
     (h2 : OpErL cx lo hi es asg1 args1 ((xs, asg2, args2), s2) s1) :
     OpErL cx lo hi (e :: es) asg args ((x :: xs, asg2, args2), s2) s := by
-  obtain ⟨new1, more1, ea1, eg1, ta1, in1, c1, A1, B1⟩ := h1
-  obtain ⟨new2, more2, ea2, eg2, ta2, in2, c2, A2, B2⟩ := h2
+  obtain ⟨new1, more1, ea1, eg1, ta1, in1, nb1, c1, A1, B1⟩ := h1
+  obtain ⟨new2, more2, ea2, eg2, ta2, in2, nb2, c2, A2, B2⟩ := h2
   dsimp only at ea1 eg1 c1 A1 B1 ea2 eg2 c2 A2 B2
   have hw1 : HypW cx hi s1 := hw.mono c1
   refine ⟨new1 ++ new2, more1 ++ more2, by dsimp only; rw [ea2, ea1, List.append_assoc],
-    by dsimp only; rw [eg2, eg1, List.append_assoc], ta1.append ta2, in1.append in2, by dsimp only; omega, ?_, ?_⟩
-  · intro σ hσ
+    by dsimp only; rw [eg2, eg1, List.append_assoc], ta1.append ta2, in1.append in2, by simp [nb1, nb2],
+    by dsimp only; omega, ?_, ?_⟩
+  · intro new'' hn σ hσ
+    obtain ⟨n1, n2, rfl, hn1, hn2⟩ := BRgL.append_inv hn
     dsimp only
-    obtain ⟨Δ1, e1, w1⟩ := A1 σ hσ
-    have hσ1 : cx.ext (eraseAsg σ new1) := by rw [e1]; exact Cx.ext_append hσ (w1.avoidCx hw)
-    obtain ⟨Δ2', e2, w2⟩ := A2 _ hσ1
+    obtain ⟨Δ1, e1, w1⟩ := A1 n1 hn1 σ hσ
+    have hσ1 : cx.ext (eraseAsg σ n1) := by rw [e1]; exact Cx.ext_append hσ (w1.avoidCx hw)
+    obtain ⟨Δ2', e2, w2⟩ := A2 n2 hn2 _ hσ1
     refine ⟨Δ2' ++ Δ1, by rw [eraseAsg_append, e2, e1, List.append_assoc], ?_⟩
     exact (w2.mono c1 (Nat.le_refl _)).append (w1.mono (Nat.le_refl _) c2)
-  · intro σ Δ2 hσ hav hac
+  · intro new'' xs'' hn hx σ Δ2 hσ hav hac
+    obtain ⟨n1, n2, rfl, hn1, hn2⟩ := BRgL.append_inv hn
+    obtain ⟨x'', xs2, rfl, hx1, hx2⟩ := BRgL.cons_inv hx
     dsimp only at hav ⊢
-    obtain ⟨Δ1, e1, w1⟩ := A1 σ hσ
-    have hσ1 : cx.ext (eraseAsg σ new1) := by rw [e1]; exact Cx.ext_append hσ (w1.avoidCx hw)
-    obtain ⟨Δ2', e2, w2⟩ := A2 _ hσ1
+    obtain ⟨Δ1, e1, w1⟩ := A1 n1 hn1 σ hσ
+    have hσ1 : cx.ext (eraseAsg σ n1) := by rw [e1]; exact Cx.ext_append hσ (w1.avoidCx hw)
+    obtain ⟨Δ2', e2, w2⟩ := A2 n2 hn2 _ hσ1
     -- the head, under the later bindings
     have hA : Avoid s.counter s1.counter (Δ2 ++ Δ2') := by
       intro p hp
@@ -47,7 +55,7 @@ theorem opErL_cons {cx : Cx} {lo hi : Nat} {e x : Node} {es xs asg args asg1 arg
       · have := hav p hp; omega
       · have := w2 p hp; have := hw.h3; omega
     have hC : AvoidP cx.bad (Δ2 ++ Δ2') := hac.append (w2.avoidCx hw1)
-    obtain ⟨X, Δ3, eX, sX, wX⟩ := B1 σ (Δ2 ++ Δ2') hσ hA hC
+    obtain ⟨X, Δ3, eX, sX, wX⟩ := B1 n1 x'' hn1 hx1 σ (Δ2 ++ Δ2') hσ hA hC
     -- the tail, under what the head bound
     have hA2 : Avoid s1.counter s2.counter (Δ3 ++ Δ2) := by
       intro p hp
@@ -55,15 +63,15 @@ theorem opErL_cons {cx : Cx} {lo hi : Nat} {e x : Node} {es xs asg args asg1 arg
       · have := wX p hp; have := hw.h3; omega
       · have := hav p hp; omega
     have hC2 : AvoidP cx.bad (Δ3 ++ Δ2) := (wX.avoidP hw.h1).append hac
-    obtain ⟨Xs, Δ3', eXs, sXs, wXs⟩ := B2 _ (Δ3 ++ Δ2) hσ1 hA2 hC2
-    have envEq : Δ2 ++ eraseAsg σ (new1 ++ new2) = (Δ2 ++ Δ2') ++ eraseAsg σ new1 := by
+    obtain ⟨Xs, Δ3', eXs, sXs, wXs⟩ := B2 n2 xs2 hn2 hx2 _ (Δ3 ++ Δ2) hσ1 hA2 hC2
+    have envEq : Δ2 ++ eraseAsg σ (n1 ++ n2) = (Δ2 ++ Δ2') ++ eraseAsg σ n1 := by
       rw [eraseAsg_append, e2, List.append_assoc]
     refine ⟨X :: Xs, Δ3' ++ Δ3, ?_, ?_, wXs.append wX⟩
     · rw [envEq]
       simp only [eraseL]
       rw [eX]
       simp only
-      have : Δ3 ++ (Δ2 ++ Δ2' ++ eraseAsg σ new1) = Δ3 ++ Δ2 ++ eraseAsg (eraseAsg σ new1) new2 := by
+      have : Δ3 ++ (Δ2 ++ Δ2' ++ eraseAsg σ n1) = Δ3 ++ Δ2 ++ eraseAsg (eraseAsg σ n1) n2 := by
         rw [e2]; simp [List.append_assoc]
       rw [this, eXs]
       simp [List.append_assoc, e2]
@@ -77,11 +85,12 @@ theorem opEr_arg_wrap {cx : Cx} {lo hi : Nat} {e x : Node} {asg args asg1 args1 
     (spread s2 : Option Span) (hs : s2.isSome = spread.isSome)
     (h : OpEr cx lo hi e asg args ((x, asg1, args1), s1) s) :
     OpEr cx lo hi (.arg s2 e) asg args ((.arg spread x, asg1, args1), s1) s := by
-  obtain ⟨new1, more1, ea1, eg1, ta1, in1, c1, A1, B1⟩ := h
-  refine ⟨new1, more1, ea1, eg1, ta1, in1, c1, A1, ?_⟩
-  intro σ Δ2 hσ hav hac
-  obtain ⟨X, Δ3, eX, sX, wX⟩ := B1 σ Δ2 hσ hav hac
-  dsimp only at eX ⊢
+  obtain ⟨new1, more1, ea1, eg1, ta1, in1, nb1, c1, A1, B1⟩ := h
+  refine ⟨new1, more1, ea1, eg1, ta1, in1, nb1, c1, A1, ?_⟩
+  intro new'' x'' hn hx σ Δ2 hσ hav hac
+  dsimp only at hx
+  obtain ⟨x2, rfl, hx2⟩ := hx.arg_inv
+  obtain ⟨X, Δ3, eX, sX, wX⟩ := B1 new'' x2 hn hx2 σ Δ2 hσ hav hac
   refine ⟨.arg spread X, Δ3, by simp only [erase, eX], ?_, wX⟩
   refine ⟨?_, ?_, ?_⟩
   · simp only [strip, sX.1]
@@ -92,7 +101,7 @@ theorem opEr_arg_wrap {cx : Cx} {lo hi : Nat} {e x : Node} {asg args asg1 args1 
 
 theorem Er_arg_inv {cx : Cx} {lo hi : Nat} {s : Option Span} {e' a : Node} (h : Er cx lo hi (.arg s e') a) :
     ∃ s2 e, a = .arg s2 e ∧ s2.isSome = s.isSome ∧ Er cx lo hi e' e := by
-  obtain ⟨X, Δ, eX, sX, _⟩ := h cx.base cx.ext_base
+  obtain ⟨X, Δ, eX, sX, _⟩ := h _ (BRg.refl _) cx.base cx.ext_base
   simp only [erase] at eX
   have hX : X = .arg s (erase cx.base e').1 := by
     have := congrArg Prod.fst eX; simpa using this.symm
@@ -102,14 +111,14 @@ theorem Er_arg_inv {cx : Cx} {lo hi : Nat} {s : Option Span} {e' a : Node} (h : 
   | arg s2 e =>
     simp only [strip, arg.injEq] at hs
     refine ⟨s2, e, rfl, by cases s <;> cases s2 <;> simp_all, ?_⟩
-    intro σ hσ
-    obtain ⟨Y, Δ', eY, sY, wY⟩ := h σ hσ
+    intro e'' hb σ hσ
+    obtain ⟨Y, Δ', eY, sY, wY⟩ := h _ (BRg.arg_mk s hb) σ hσ
     simp only [erase] at eY
-    refine ⟨(erase σ e').1, Δ', ?_, ?_, wY⟩
+    refine ⟨(erase σ e'').1, Δ', ?_, ?_, wY⟩
     · have := congrArg Prod.snd eY
       simp only at this
       exact Prod.ext rfl this
-    · have hY : Y = .arg s (erase σ e').1 := by
+    · have hY : Y = .arg s (erase σ e'').1 := by
         have := congrArg Prod.fst eY; simpa using this.symm
       rw [hY] at sY
       refine ⟨?_, ?_, ?_⟩
@@ -131,7 +140,7 @@ theorem replaceArgNoExpand_Er (cx : Cx) (lo hi : Nat) (a' a : Node) (mode : Iden
     exact opEr_arg_wrap spread s2 hs this
   | _ =>
     simp only [replaceArgNoExpand, run_pure]
-    have := opEr_inplace cx lo hi _ a asg args [] s hE InertL.nil
+    have := opEr_inplace cx lo hi _ a asg args [] s hE InertL.nil rfl
     simpa using this
 
 end IastModel
